@@ -8,19 +8,49 @@
    answers to a k-fold population by the factor of its kind; Euler rows scale by k along frequency-dependent
    runs, Euler and RK4 rows for models without infection), and the scaling
    identities (clipping commutes with k > 0, prevalence is scale invariant, sums are homogeneous).
-   Compartment / strata / stratification-order equivariance of the build, renaming and
-   "flow added before = after an unadjusted stratification" are established by the metamorphic
-   oracle and the correspondence only (DESIGN.md 6.15). *)
+   For whole models without infection flows, flow order (C15_flow_order_model) and compartment order
+   (C15_compartment_order_model) are proved on get_comp_rates itself.  Strata / stratification-order equivariance of
+   the build, renaming, "flow added before = after an unadjusted stratification", and the order statements for models
+   with infection flows are established by the metamorphic oracle and the correspondence only (DESIGN.md 6.15). *)
 From Coq Require Import QArith Qcanon List String Bool Permutation.
 Import ListNotations.
 From S2 Require Import Base.Num Base.Arr Model.Expr Model.Struct Model.Solvers
-     Model.Rates Model.Run Model.Program Proofs.NumQc Proofs.NumLemmas Proofs.InvarianceProofs Proofs.TimeShift Proofs.Scaling Proofs.ShiftBuild Gen.SolversGen Props.Examples.
+     Model.Rates Model.Run Model.Program Proofs.NumQc Proofs.NumLemmas Proofs.InvarianceProofs Proofs.TimeShift Proofs.Scaling Proofs.ShiftBuild Proofs.BuildProofs Proofs.FlowOrder Proofs.AggregateAll Proofs.CompOrder Proofs.PopScale Model.InitPop Gen.SolversGen Props.Examples.
 
 Theorem C15_flow_permutation :
   forall (O : NumOps) (T : NumTheory O) (rate : flow -> F O) (fl fl' : list flow) (c : comp),
     Permutation fl fl' -> net_rate O rate fl c = net_rate O rate fl' c.
 Proof. exact net_rate_permutation. Qed.
 Print Assumptions C15_flow_permutation.
+
+(* ... on whole models without infection flows, in terms of what the runner computes: the model with its flows declared in
+   another order (all else equal) has the same get_comp_rates - index arrays, application matrix and death totals are
+   rebuilt for the new order, the result is the same vector *)
+Theorem C15_flow_order_model :
+  forall (O : NumOps) (T : NumTheory O) (m : model) (fl' : list flow) (b b' : backend) (p : env O) (t : F O) (x0 : list (F O)),
+    Permutation (m_flows m) fl' -> wf m -> NoDup (m_comps m) ->
+    (forall f, In f (m_flows m) -> is_infection (f_kind f) = false) ->
+    prepare_structural m = Ok b -> prepare_structural (upd_flows m fl') = Ok b' ->
+    get_comp_rates O (upd_flows m fl') b' p t x0 = get_comp_rates O m b p t x0.
+Proof. intros O T. exact (flow_order_irrelevant O T). Qed.
+Print Assumptions C15_flow_order_model.
+
+(* ... and compartment order: two models (without infection flows, rates that do not read the state) with the same flows
+   whose compartment lists are permutations of one another, evaluated at the same state - the state given as a
+   non-negative function sigma of the compartment and laid out in each model's own order - give every compartment the
+   same rate of change, found at that compartment's position in each model *)
+Theorem C15_compartment_order_model :
+  forall (O : NumOps) (T : NumTheory O) (m1 m2 : model) (b1 b2 : backend) (p : env O) (t : F O) (sigma : comp -> F O),
+    m_flows m2 = m_flows m1 -> Permutation (m_comps m1) (m_comps m2) ->
+    wf m1 -> wf m2 -> NoDup (m_comps m1) ->
+    (forall f, In f (m_flows m1) -> ni_flow f) ->
+    prepare_structural m1 = Ok b1 -> prepare_structural m2 = Ok b2 ->
+    (forall c, fle O T (f0 O) (sigma c)) ->
+    forall c, In c (m_comps m1) ->
+      nth (comp_index (m_comps m2) c) (get_comp_rates O m2 b2 p t (layout O sigma m2)) (f0 O)
+      = nth (comp_index (m_comps m1) c) (get_comp_rates O m1 b1 p t (layout O sigma m1)) (f0 O).
+Proof. intros O T. exact (compartment_order_irrelevant O T). Qed.
+Print Assumptions C15_compartment_order_model.
 
 Theorem C15_time_free_inputs :
   forall (O : NumOps) (p : env O) (e : expr), time_free e = true -> forall t t' x, eval O p t x e = eval O p t' x e.
@@ -76,6 +106,16 @@ Theorem C15_build_time_shift :
     = let (om, e) := build t0 t1 h comps inf ops in (option_map (fun m => shift_times m d) om, e).
 Proof. exact build_time_shift. Qed.
 Print Assumptions C15_build_time_shift.
+
+(* population scale at the initial state: the model whose declared distribution is multiplied by k (every value, literal,
+   parameter or function alike) starts from k times the initial population - through any number of stratifications with
+   any splits, and any population-split adjustments (stratification splits and adjustments are linear in the values) *)
+Theorem C15_initial_population_scales :
+  forall (O : NumOps) (T : NumTheory O) (p : env O) (m : model) (kq : Q),
+    m_arraypop m = None ->
+    initial_population O (scale_dist m kq) p = vscale O (of_Q O kq) (initial_population O m p).
+Proof. intros O T. exact (initial_population_scales O T). Qed.
+Print Assumptions C15_initial_population_scales.
 
 (* whole models, population scale.  For a model whose rate inputs do not mention the compartment values, and k > 0:
    (1) the rate of the flow at position i at the state k * x is [flow_scale_factor] times its rate at x: k for
